@@ -65,6 +65,9 @@ pub fn exec_sched(sc: &Scenario) -> Report {
         let mut r = Report::default();
         sched::name_current_thread("user-0");
         let term = SimTerm::new(60, 100);
+        if sc.c("term_yield") == 1 {
+            term.lock().yield_in_calls = true;
+        }
         let hz = sc.c("hz");
         let target = if hz > 0 {
             ProgressDrawTarget::term_like_with_hz(Box::new(term.clone()), hz as u8)
@@ -189,13 +192,28 @@ pub fn exec_sched(sc: &Scenario) -> Report {
             let mp2 = mp.clone();
             let t2 = t_shared.clone();
             let t_style = style("T");
+            let b0_clone = bars[0].as_ref().unwrap().clone();
+            let tr2 = t_rank.clone();
             handles.push(verif_simrt::thread::spawn_named("user-poker", move || {
                 for op in ops.iter() {
                     match op.k.as_str() {
                         "add_t" => {
                             let already = t2.lock().unwrap().is_some();
                             if !already {
-                                let pb = mp2.add(ProgressBar::with_draw_target(Some(5), ProgressDrawTarget::hidden()));
+                                // (anchored variants: the anchor B0 is never removed, while the
+                                // structural thread may remove S in front of it at any moment)
+                                let nb = ProgressBar::with_draw_target(Some(5), ProgressDrawTarget::hidden());
+                                let pb = match op.n0() % 3 {
+                                    1 => {
+                                        tr2.store(5, Ordering::SeqCst);
+                                        mp2.insert_after(&b0_clone, nb)
+                                    }
+                                    2 => {
+                                        tr2.store(3, Ordering::SeqCst);
+                                        mp2.insert_before(&b0_clone, nb)
+                                    }
+                                    _ => mp2.add(nb),
+                                };
                                 pb.set_style(t_style.clone());
                                 pb.set_message("m0");
                                 pb.tick();
@@ -283,6 +301,12 @@ pub fn exec_sched(sc: &Scenario) -> Report {
                 r.violate("C02.no_panic", format!("worker panicked: {}", sched::panic_message(&p)));
             }
         }
+        // what the MultiProgress holds for a member is the bar's latest state whenever the last
+        // thing the bar did was a request that is always made (set_message, finish*, abandon*:
+        // `inc` may be skipped by the position rate limiter): a forced frame shows it without
+        // the bar being asked again
+        let pre_idx = frames.lock().unwrap().len();
+        let _ = mp.println("PRE");
         // final frame: every bar submits once more, then a forced paint
         for pb in bars.iter().flatten() {
             pb.tick();
@@ -315,7 +339,7 @@ pub fn exec_sched(sc: &Scenario) -> Report {
                     continue; // padding rows of bottom alignment
                 }
                 let tag = row.split(':').next().unwrap_or("");
-                if row.starts_with('L') || row.starts_with('U') || row == "END" {
+                if row.starts_with('L') || row.starts_with('U') || row == "END" || row == "PRE" {
                     if prev_rank.is_some() {
                         r.violate("C02.frame_order", format!("frame #{} (flush {}): a log line below a bar row: {:?}", fi, f.flush, f.rows));
                         break 'frames;
@@ -448,6 +472,27 @@ pub fn exec_sched(sc: &Scenario) -> Report {
                 r.probe("finish_frames_checked");
             }
         }
+        // the forced frame painted before the bars were asked again shows the final state of
+        // every bar that ended with a request that is always made
+        if r.violation.is_none() {
+            if let Some(f) = frames.get(pre_idx) {
+                for i in 0..nworkers {
+                    let last = sc.threads[i + 1].iter().rev().find(|o| matches!(o.k.as_str(), "inc" | "set_message" | "finish" | "abandon"));
+                    if bars[i].is_none() || !last.map_or(false, |o| o.k != "inc") {
+                        continue;
+                    }
+                    let want = render_row(&format!("B{i}"), *paths[i].last().unwrap(), has_len(i));
+                    if !f.rows.iter().any(|row| *row == want) {
+                        r.violate(
+                            "C02.stale_member",
+                            format!("after all threads had finished a forced frame shows {:?}: B{i} ended with {} and its final state is {want:?}", f.rows, last.map_or("", |o| o.k.as_str())),
+                        );
+                        break;
+                    }
+                    r.probe("stored_states_checked");
+                }
+            }
+        }
         // the last frame shows the final states
         if r.violation.is_none() {
             if let Some(f) = frames.last() {
@@ -515,6 +560,9 @@ pub fn gen_sched(rng: &mut Rng, tier: Tier) -> Scenario {
     let nworkers = rng.range(2, if tier == Tier::Quick { 3 } else { 4 }) as usize;
     sc.set("hz", *rng.pick(&[0, 0, 20, 255]));
     sc.set("atomics_yield", rng.chance(1, 3) as u64);
+    // in half of the runs a thread can be descheduled in the middle of a draw (at every terminal
+    // call), i.e. while it holds the MultiProgress lock
+    sc.set("term_yield", rng.chance(1, 2) as u64);
     gen_sched_cfg(&mut sc, rng, 80 * nworkers as u64);
     sc.set("spurious_pm", 0);
     let shared_w = rng.chance(1, 3);
@@ -579,7 +627,7 @@ pub fn gen_sched(rng: &mut Rng, tier: Tier) -> Scenario {
             ops.push(match rng.below(6) {
                 0 | 1 => Op::new("s_update").n(*rng.pick(&[0, 1_000_000, 30_000_000])),
                 2 => Op::new("s_tick"),
-                3 | 4 => Op::new("add_t"),
+                3 | 4 => Op::new("add_t").n(rng.below(3)),
                 _ => Op::new("s_set_message"),
             });
         }
